@@ -58,6 +58,13 @@ Definition ce_holds (d : node) (loc : option N * pyval) (s : selres) : Prop :=
   | _ => False
   end.
 
+(* the result's parent is a mapping or a sequence of the document (not the root, not a set) *)
+Definition ce_elem_parent (x : rval) : bool :=
+  match x with
+  | RCoords _ (Some (RNode (NMap _ _))) _ _ _ | RCoords _ (Some (RNode (NSeq _ _))) _ _ _ => true
+  | _ => false
+  end.
+
 Section SetSpec.
 Variable lit : string -> outcome litres.
 Variable fl : string -> outcome flres.
